@@ -712,15 +712,335 @@ theorem import_checks {cfg : Cfg} {P : Prims} {alg : Alg} {j : Parts} {k : Key} 
       · cases h
 
 
-/- OPEN: jwk_roundtrip — for every key `k` produced by an import (`Key.Consistent`, lengths as in `Alg.secretLen` / `Alg.pubLen`)
-   and every asymmetric algorithm, `fromJwk cfg P (toJwk k .secretKey none) = .ok k` and
-   `fromJwk cfg P (toJwk k .publicKey none) = .ok {k with secret := none}`, under the curve laws
-   `P.fromAffine alg (pub.take n) (pub.drop n) = some pub` for `pub` in the image of `P.pubOf` and
-   `P.decodePub alg p = some p` for canonical encodings.  The ingredients are proved (`b64_roundtrip`, `import_checks`,
-   `secret_bytes_roundtrip`); what is missing is the parser-correctness lemma `parseJwk cfg (renderMembers ms) = visit cfg ms'`
-   for the encoder's output (no whitespace, no escapes).  The statement is exercised by the harness oracle
-   (`jwk_roundtrip:*` signatures) on every generated key instead.  For symmetric keys the statement is false (D15):
-   `selectAlg` has no `oct` branch — see `oct_import_unsupported`. -/
+/-! ## the parser on the encoder's output -/
+
+/-- no `"` and no `\` -/
+def Clean (s : Bytes) : Bool := s.all fun c => c != 34 && c != 92
+
+/-- what `JwkBufferEncoder` can be asked to write without producing something else than it was asked for:
+    no `"` and no `\` in a member name or in a member value -/
+def MembersClean (ms : List Member) : Bool := ms.all fun m => Clean (sb m.1) && Clean m.2
+
+/-- the text of one member -/
+def memText (m : Member) : Bytes := sb "\"" ++ sb m.1 ++ sb "\":\"" ++ m.2 ++ sb "\""
+
+/-- the text of the members after the first -/
+def tailText : List Member → Bytes
+  | [] => []
+  | m :: ms => 44 :: (memText m ++ tailText ms)
+
+/-- the token-level view of what the encoder wrote -/
+def toks (ms : List Member) : List (Bytes × JVal) := ms.map fun m => (sb m.1, JVal.str m.2)
+
+theorem toks_cons (m : Member) (ms : List Member) : toks (m :: ms) = (sb m.1, JVal.str m.2) :: toks ms := rfl
+
+theorem memText_eq (m : Member) (r : Bytes) :
+    memText m ++ r = 34 :: (sb m.1 ++ 34 :: 58 :: 34 :: (m.2 ++ 34 :: r)) := by
+  have h1 : sb "\"" = [34] := by decide
+  have h2 : sb "\":\"" = [34, 58, 34] := by decide
+  simp [memText, h1, h2]
+
+theorem intercalate_tail (ms : List Member) (m : Member) :
+    List.intercalate (sb ",") ((m :: ms).map fun m => sb "\"" ++ sb m.1 ++ sb "\":\"" ++ m.2 ++ sb "\"")
+      = memText m ++ tailText ms := by
+  induction ms generalizing m with
+  | nil => simp [tailText, memText]
+  | cons m' ms ih =>
+    have h1 : sb "," = [44] := by decide
+    have h := ih m'
+    simp only [List.map_cons] at h
+    rw [List.map_cons, List.map_cons, List.intercalate_cons_cons, h]
+    simp [tailText, h1, memText]
+
+theorem renderMembers_cons (m : Member) (ms : List Member) :
+    renderMembers (m :: ms) = 123 :: (memText m ++ (tailText ms ++ [125])) := by
+  have h1 : sb "{" = [123] := by decide
+  have h2 : sb "}" = [125] := by decide
+  simp only [renderMembers]
+  rw [intercalate_tail, h1, h2]
+  simp
+
+theorem skipWs_cons {c : UInt8} (r : Bytes) (h : isWs c = false) : skipWs (c :: r) = c :: r := by
+  simp [skipWs, h]
+
+theorem Clean_cons {c : UInt8} {s : Bytes} : Clean (c :: s) = true ↔ (c ≠ 34 ∧ c ≠ 92) ∧ Clean s = true := by
+  simp [Clean]
+
+theorem strBody_clean {s : Bytes} (hs : Clean s = true) (r acc : Bytes) :
+    strBody (s ++ 34 :: r) false acc = some (acc.reverse ++ s, r) := by
+  induction s generalizing acc with
+  | nil => simp [strBody]
+  | cons c s ih =>
+    obtain ⟨⟨h1, h2⟩, hs'⟩ := Clean_cons.mp hs
+    simp only [List.cons_append, strBody, h1, h2, if_false]
+    rw [ih hs']
+    simp
+
+theorem deStr_quoted {s : Bytes} (hs : Clean s = true) (r : Bytes) : deStr (34 :: (s ++ 34 :: r)) = some (s, r) := by
+  simp [deStr, skipWs_cons _ (show isWs 34 = false by decide), strBody_clean hs]
+
+theorem colon_cons (r : Bytes) : colon (58 :: r) = some r := by
+  simp [colon, skipWs_cons _ (show isWs 58 = false by decide)]
+
+theorem valueStr_quoted {s : Bytes} (hs : Clean s = true) (r : Bytes) :
+    valueStr (58 :: 34 :: (s ++ 34 :: r)) = some (s, r) := by
+  simp [valueStr, colon_cons, deStr_quoted hs]
+
+theorem mapNext_first (r : Bytes) : mapNext (34 :: r) true = some (some (34 :: r)) := by
+  simp [mapNext, skipWs_cons _ (show isWs 34 = false by decide)]
+
+theorem mapNext_comma (r : Bytes) : mapNext (44 :: 34 :: r) false = some (some (34 :: r)) := by
+  simp [mapNext, skipWs_cons _ (show isWs 34 = false by decide), skipWs_cons _ (show isWs 44 = false by decide)]
+
+theorem mapNext_close (r : Bytes) (first : Bool) : mapNext (125 :: r) first = some none := by
+  simp [mapNext, skipWs_cons _ (show isWs 125 = false by decide)]
+
+theorem mapNext_colon (r : Bytes) : mapNext (58 :: r) false = none := by
+  simp [mapNext, skipWs_cons _ (show isWs 58 = false by decide)]
+
+theorem deKeyOps_quote (r : Bytes) : deKeyOps (34 :: r) = none := by
+  simp [deKeyOps, skipWs_cons _ (show isWs 34 = false by decide)]
+
+theorem ignoredAny_quoted {s : Bytes} (hs : Clean s = true) (r : Bytes) (fuel : Nat) :
+    ignoredAny (fuel + 1) (34 :: (s ++ 34 :: r)) = some r := by
+  simp [ignoredAny, skipWs_cons _ (show isWs 34 = false by decide), strBody_clean hs]
+
+/-- one turn of the loop on one member written by the encoder -/
+theorem mapLoop_member (cfg : Cfg) (fuel : Nat) (inp : Bytes) (first : Bool) (a : Acc) (m : Member) (r : Bytes)
+    (hn : Clean (sb m.1) = true) (hv : Clean m.2 = true) (hnext : mapNext inp first = some (some (memText m ++ r))) :
+    mapLoop cfg (fuel + 1) inp first a =
+      match visitStep cfg a (sb m.1, JVal.str m.2) with
+      | some a' => mapLoop cfg fuel r false a'
+      | none => none := by
+  rw [mapLoop, hnext]
+  simp only [memText_eq, deStr_quoted hn]
+  cases hf : fieldOf (sb m.1) with
+  | none =>
+    simp only [visitStep, hf]
+    cases hc : cfg.consumeUnknown with
+    | true =>
+      simp [colon_cons, ignoredAny_quoted hv]
+    | false =>
+      simp only [Bool.false_eq_true, if_false]
+      cases fuel with
+      | zero => simp [mapLoop]
+      | succ f => simp [mapLoop, mapNext_colon]
+  | some f =>
+    cases f <;> simp [visitStep, hf, valueStr_quoted hv, colon_cons, deKeyOps_quote]
+
+theorem mapLoop_tail (cfg : Cfg) (t : Bytes) (ms : List Member) (hc : MembersClean ms = true) (fuel : Nat) (a : Acc)
+    (hf : ms.length + 1 ≤ fuel) :
+    mapLoop cfg fuel (tailText ms ++ 125 :: t) false a = (visitFrom cfg a (toks ms)).map fun a' => (a', 125 :: t) := by
+  induction ms generalizing fuel a with
+  | nil =>
+    obtain ⟨f, rfl⟩ : ∃ f, fuel = f + 1 := ⟨fuel - 1, by simp at hf; omega⟩
+    simp [tailText, toks, visitFrom, mapLoop, mapNext_close, skipWs_cons _ (show isWs 125 = false by decide)]
+  | cons m ms ih =>
+    obtain ⟨f, rfl⟩ : ∃ f, fuel = f + 1 := ⟨fuel - 1, by simp at hf; omega⟩
+    simp only [MembersClean, List.all_cons, Bool.and_eq_true] at hc
+    obtain ⟨⟨hn, hv⟩, hc'⟩ := hc
+    have hnext : mapNext (tailText (m :: ms) ++ 125 :: t) false = some (some (memText m ++ (tailText ms ++ 125 :: t))) := by
+      simp only [tailText, List.cons_append, List.append_assoc]
+      rw [memText_eq, mapNext_comma]
+    rw [mapLoop_member cfg f _ false a m _ hn hv hnext]
+    simp only [toks_cons, visitFrom]
+    cases visitStep cfg a (sb m.1, JVal.str m.2) with
+    | none => rfl
+    | some a' => exact ih hc' f a' (by simp at hf ⊢; omega)
+
+theorem tailText_length (ms : List Member) : ms.length ≤ (tailText ms).length := by
+  induction ms with
+  | nil => simp [tailText]
+  | cons m ms ih => simp [tailText]; omega
+
+/-- **parser correctness on the encoder's output**: for every member list whose names and values contain neither `"` nor `\`
+    (in particular everything `toJwk` writes: fixed ASCII names, curve / key-type names, base64url values), the byte-level parser
+    (`serde_json_core::from_str::<JwkParts>`, with the fuel `parseJwk` itself supplies) run on the rendered text visits exactly
+    those members, in order, each as a string value — for every configuration, known or unknown member names alike. -/
+theorem parse_render (cfg : Cfg) (ms : List Member) (hc : MembersClean ms = true) :
+    parseJwk cfg (renderMembers ms) = visit cfg (toks ms) := by
+  cases ms with
+  | nil => simp [renderMembers, parseJwk, skipWs, visit, toks, visitFrom, Acc.finish]
+  | cons m ms =>
+    simp only [MembersClean, List.all_cons, Bool.and_eq_true] at hc
+    obtain ⟨⟨hn, hv⟩, hc'⟩ := hc
+    rw [renderMembers_cons, parseJwk, skipWs_cons _ (show isWs 123 = false by decide)]
+    simp only [if_true]
+    have hnext : mapNext (memText m ++ (tailText ms ++ [125])) true = some (some (memText m ++ (tailText ms ++ [125]))) := by
+      rw [memText_eq, mapNext_first]
+    rw [mapLoop_member cfg _ _ true {} m _ hn hv hnext]
+    simp only [visit, toks_cons, visitFrom]
+    cases visitStep cfg {} (sb m.1, JVal.str m.2) with
+    | none => rfl
+    | some a' =>
+      simp only []
+      rw [mapLoop_tail cfg [] ms hc' _ a']
+      · cases visitFrom cfg a' (toks ms) with
+        | none => rfl
+        | some a'' =>
+          simp only [Option.map_some]
+          cases a''.finish with
+          | none => rfl
+          | some p => simp [skipWs]
+      · have := tailText_length ms
+        simp only [List.length_append, List.length_cons, List.length_nil]
+        omega
+
+/-! ## export, then import -/
+
+theorem symN_alphabet (n : Nat) : symN n < 256 ∧ symN n ≠ 34 ∧ symN n ≠ 92 := by
+  unfold symN
+  (repeat' split) <;> omega
+
+theorem sym_clean (n : Nat) : sym n ≠ 34 ∧ sym n ≠ 92 := by
+  obtain ⟨h1, h2, h3⟩ := symN_alphabet n
+  unfold sym
+  constructor <;> intro h <;> have := congrArg UInt8.toNat h <;> rw [ofNat_toNat_lt h1] at this <;> simp_all
+
+theorem Clean_b64encode (b : Bytes) : Clean (b64encode b) = true := by
+  fun_induction b64encode b with
+  | case1 a b c rest ih => simp only [Clean_cons, sym_clean, ih, and_self, ne_eq, not_false_eq_true]
+  | case2 a b => simp [Clean, sym_clean]
+  | case3 a => simp [Clean, sym_clean]
+  | case4 => rfl
+
+theorem b64encode_length (b : Bytes) : (b64encode b).length = (b.length * 4 + 2) / 3 := by
+  fun_induction b64encode b with
+  | case1 a b c rest ih => simp only [List.length_cons, ih]; omega
+  | case2 a b => simp
+  | case3 a => simp
+  | case4 => rfl
+
+/-- the encoded text of exactly `n` bytes is decoded by `decode_base64` into an `n`-byte array as those bytes -/
+theorem decodeExact_encode {b : Bytes} {n : Nat} (h : b.length = n) : decodeExact (some (b64encode b)) n = .ok b := by
+  simp [decodeExact, decodeBase64, b64encode_length, b64_roundtrip, h]
+
+/-- lengths as the key types hold them (`Alg.pubLen`, `Alg.secretLen`) -/
+def Key.WellSized (k : Key) : Prop :=
+  k.pub.length = k.alg.pubLen ∧ ∀ d, k.secret = some d → d.length = k.alg.secretLen
+
+/-- Weierstrass curves: the stored point is on the curve — `from_affine_coordinates(x, y)` accepts it and gives it back -/
+def Key.OnCurve (P : Prims) (k : Key) : Prop :=
+  k.alg.isEc = true → P.fromAffine k.alg (k.pub.take k.alg.secretLen) (k.pub.drop k.alg.secretLen) = some k.pub
+
+/-- Ed25519 / BLS: the stored public key is the canonical encoding, i.e. the crate's decoder accepts it and gives it back -/
+def Key.PubCanonical (P : Prims) (k : Key) : Prop :=
+  match k.alg with
+  | .ed25519 => P.decodePub .ed25519 k.pub = some k.pub
+  | .blsG1 => P.decodePub .blsG1 k.pub = some k.pub
+  | .blsG2 => P.decodePub .blsG2 k.pub = some k.pub
+  | .blsG1G2 => P.decodePub .blsG1 (k.pub.take 48) = some (k.pub.take 48) ∧ P.decodePub .blsG2 (k.pub.drop 48) = some (k.pub.drop 48)
+  | _ => True
+
+/-- the curve laws: a public key computed from a secret is on the curve / is a canonical encoding -/
+structure Prims.CurveLaws (P : Prims) : Prop where
+  onCurve : ∀ alg d p, alg.isEc = true → P.pubOf alg d = some p →
+    P.fromAffine alg (p.take alg.secretLen) (p.drop alg.secretLen) = some p
+  canonical : ∀ alg d p, alg = .ed25519 ∨ alg = .blsG1 ∨ alg = .blsG2 → P.pubOf alg d = some p → P.decodePub alg p = some p
+  canonicalG1G2 : ∀ d p, P.pubOf .blsG1G2 d = some p →
+    P.decodePub .blsG1 (p.take 48) = some (p.take 48) ∧ P.decodePub .blsG2 (p.drop 48) = some (p.drop 48)
+
+theorem Key.onCurve_of_laws {P : Prims} (hP : P.CurveLaws) {k : Key} (hc : k.Consistent P) (ha : k.alg.isSymmetric = false)
+    {d : Bytes} (hd : k.secret = some d) : k.OnCurve P :=
+  fun he => hP.onCurve k.alg d k.pub he (hc d hd ha)
+
+theorem Key.pubCanonical_of_laws {P : Prims} (hP : P.CurveLaws) {k : Key} (hc : k.Consistent P) (ha : k.alg.isSymmetric = false)
+    {d : Bytes} (hd : k.secret = some d) : k.PubCanonical P := by
+  have hp := hc d hd ha
+  obtain ⟨alg, sec, pub⟩ := k
+  cases alg <;> simp only [Key.PubCanonical]
+  · exact hP.canonical _ d pub (Or.inr (Or.inl rfl)) hp
+  · exact hP.canonical _ d pub (Or.inr (Or.inr rfl)) hp
+  · exact hP.canonicalG1G2 d pub hp
+  · exact hP.canonical _ d pub (Or.inl rfl) hp
+
+/-- what the exported members are parsed into -/
+def exportParts (k : Key) (withD : Bool) : Parts :=
+  { kty := sb k.alg.jwkKty, crv := some (sb k.alg.jwkCrv),
+    x := some (b64encode (if k.alg.isEc then k.pub.take k.alg.secretLen else k.pub)),
+    y := if k.alg.isEc then some (b64encode (k.pub.drop k.alg.secretLen)) else none,
+    d := if withD then k.secret.map b64encode else none }
+
+theorem Clean_crv (alg : Alg) : Clean (sb alg.jwkCrv) = true := by cases alg <;> decide
+
+section
+attribute [local simp] Clean_b64encode Clean_crv
+private theorem f_crv : fieldOf (sb "crv") = some .crv := by decide
+private theorem f_kty : fieldOf (sb "kty") = some .kty := by decide
+private theorem f_x : fieldOf (sb "x") = some .x := by decide
+private theorem f_y : fieldOf (sb "y") = some .y := by decide
+private theorem f_d : fieldOf (sb "d") = some .d := by decide
+private theorem c_crv : Clean (sb "crv") = true := by decide
+private theorem c_kty : Clean (sb "kty") = true := by decide
+private theorem c_x : Clean (sb "x") = true := by decide
+private theorem c_y : Clean (sb "y") = true := by decide
+private theorem c_d : Clean (sb "d") = true := by decide
+private theorem c_EC : Clean (sb "EC") = true := by decide
+private theorem c_OKP : Clean (sb "OKP") = true := by decide
+
+/-- the members `toJwk` writes for an asymmetric key are clean, and the visitor collects them into `exportParts` -/
+theorem export_visit (cfg : Cfg) (k : Key) (ha : k.alg.isSymmetric = false) (withD : Bool) :
+    ∃ ms, encodeJwk k (if withD then .secretKey else .publicKey) none = .ok ms ∧ MembersClean ms = true ∧
+      visit cfg (toks ms) = some (exportParts k withD) := by
+  obtain ⟨alg, sec, pub⟩ := k
+  cases alg <;> simp [Alg.isSymmetric] at ha <;> cases sec <;> cases withD <;>
+    simp [-List.all_eq_true, encodeJwk, Alg.isSymmetric, Alg.isEc, Alg.isBls, blsView, MembersClean, toks, visit, visitFrom, visitStep,
+      f_crv, f_kty, f_x, f_y, f_d, c_crv, c_kty, c_x, c_y, c_d, c_EC, c_OKP, Acc.finish, exportParts, Alg.jwkKty]
+end
+
+/-- `from_jwk_any` dispatches the exported `(kty, crv)` pair back to the key's own algorithm -/
+theorem selectAlg_export (k : Key) (ha : k.alg.isSymmetric = false) (withD : Bool) :
+    selectAlg (exportParts k withD) = some k.alg := by
+  obtain ⟨alg, sec, pub⟩ := k
+  cases alg <;> simp [Alg.isSymmetric] at ha <;> simp only [selectAlg, exportParts] <;> decide
+
+/-- `from_jwk_parts` on the exported members gives the key back -/
+theorem fromJwkParts_export (cfg : Cfg) (P : Prims) (k : Key) (ha : k.alg.isSymmetric = false) (hs : k.WellSized)
+    (hc : k.Consistent P) (hoc : k.OnCurve P) (withD : Bool) (hpc : withD = false ∨ k.secret = none → k.PubCanonical P) :
+    fromJwkParts cfg P k.alg (exportParts k withD) = .ok (if withD then k else { k with secret := none }) := by
+  obtain ⟨alg, sec, pub⟩ := k
+  obtain ⟨hpl, hsl⟩ := hs
+  simp only at hpl hsl ha
+  cases alg <;> simp [Alg.isSymmetric] at ha
+  all_goals (cases sec <;> cases withD)
+  all_goals simp [Alg.pubLen, Alg.secretLen, Alg.isEc, Alg.isSymmetric, Key.OnCurve, Key.PubCanonical, Key.Consistent] at hpl hsl hoc hpc hc
+  all_goals simp [fromJwkParts, exportParts, Alg.isEc, Alg.isBls, Alg.jwkKty, Alg.isSymmetric, Alg.secretLen, Alg.pubLen]
+  all_goals simp [decodeExact_encode, hpl, hsl, fromPublicBytes, decodePublic, fromSecretBytes, checkPublic, hc, hpc, hoc,
+    Alg.isSymmetric, Alg.isEc, Alg.secretLen]
+
+/-- export in one mode, then import: the text `toJwk` produces is parsed back (byte-level parser, its own fuel) into the same key -/
+theorem jwk_roundtrip_mode (cfg : Cfg) (P : Prims) (k : Key) (ha : k.alg.isSymmetric = false) (hs : k.WellSized)
+    (hc : k.Consistent P) (hoc : k.OnCurve P) (withD : Bool) (hpc : withD = false ∨ k.secret = none → k.PubCanonical P) :
+    ∃ t, toJwk k (if withD then .secretKey else .publicKey) none = .ok t ∧
+      fromJwk cfg P t = .ok (if withD then k else { k with secret := none }) := by
+  obtain ⟨ms, he, hcl, hv⟩ := export_visit cfg k ha withD
+  refine ⟨renderMembers ms, by simp [toJwk, he], ?_⟩
+  unfold fromJwk
+  rw [parse_render cfg ms hcl, hv]
+  simp only [fromJwkAny, selectAlg_export k ha withD]
+  exact fromJwkParts_export cfg P k ha hs hc hoc withD hpc
+
+/-- secret-key export → import gives the key back (a key without secret is exported without `d` and comes back as it is) -/
+theorem jwk_roundtrip_secret (cfg : Cfg) (P : Prims) (k : Key) (ha : k.alg.isSymmetric = false) (hs : k.WellSized)
+    (hc : k.Consistent P) (hoc : k.OnCurve P) (hpc : k.secret = none → k.PubCanonical P) :
+    ∃ t, toJwk k .secretKey none = .ok t ∧ fromJwk cfg P t = .ok k :=
+  jwk_roundtrip_mode cfg P k ha hs hc hoc true (fun h => hpc (h.resolve_left (by simp)))
+
+/-- public-key export → import gives the public half of the key -/
+theorem jwk_roundtrip_public (cfg : Cfg) (P : Prims) (k : Key) (ha : k.alg.isSymmetric = false) (hs : k.WellSized)
+    (hc : k.Consistent P) (hoc : k.OnCurve P) (hpc : k.PubCanonical P) :
+    ∃ t, toJwk k .publicKey none = .ok t ∧ fromJwk cfg P t = .ok { k with secret := none } :=
+  jwk_roundtrip_mode cfg P k ha hs hc hoc false (fun _ => hpc)
+
+/-- key pairs, under the curve laws only -/
+theorem jwk_roundtrip_keypair (cfg : Cfg) (P : Prims) (hP : P.CurveLaws) (k : Key) (ha : k.alg.isSymmetric = false)
+    (hs : k.WellSized) (hc : k.Consistent P) {d : Bytes} (hd : k.secret = some d) :
+    (∃ t, toJwk k .secretKey none = .ok t ∧ fromJwk cfg P t = .ok k) ∧
+    (∃ t, toJwk k .publicKey none = .ok t ∧ fromJwk cfg P t = .ok { k with secret := none }) :=
+  ⟨jwk_roundtrip_secret cfg P k ha hs hc (Key.onCurve_of_laws hP hc ha hd) (fun h => by simp [hd] at h),
+   jwk_roundtrip_public cfg P k ha hs hc (Key.onCurve_of_laws hP hc ha hd) (Key.pubCanonical_of_laws hP hc ha hd)⟩
+
+/-! For symmetric keys the round trip is false (D15): `selectAlg` has no `oct` branch. -/
 
 /-- D15, as a theorem about the model: no JWK with `kty = "oct"` can be imported, whatever else it contains -/
 theorem oct_import_unsupported (cfg : Cfg) (P : Prims) (j : Parts) (h : j.kty = sb "oct") : fromJwkAny cfg P j = .err .unsupported := by
